@@ -331,10 +331,16 @@ Section Wait.
     { intros s' M _ j Hj E. exact (M_cov _ _ _ _ _ _ M j Hj E). }
     assert (ABORT : forall s' pend, MI c ids s s' pend ids -> MI c ids s (set_abort s') pend ids).
     { intros s' pend M. apply (MI_tbl_same c ids s s'); [reflexivity|exact (M_cache _ _ _ _ _ _ M)|exact M]. }
+    assert (RESET : forall s' pend, MI c ids s s' pend ids -> MI c ids s (wait_reset sc c ids s') pend ids).
+    { intros s' pend M. apply (MI_tbl_same c ids s s'); [apply wait_reset_tbl| |exact M].
+      unfold cacheok. rewrite wait_reset_cache. exact (M_cache _ _ _ _ _ _ M). }
+    assert (RNIL : forall s', MI c ids s s' [] ids ->
+              r_abort (wait_reset sc c ids s') = false -> forall j, In j ids -> rc (wait_reset sc c ids s') j <> Some RPending).
+    { intros s' M _ j Hj E. exact (M_cov _ _ _ _ _ _ (RESET _ _ M) j Hj E). }
     unfold wait_task. cbv zeta.
     pose proof (MI_wait_start c g ids s CO) as M1.
     destruct (wait_start c g ids s) as [s1 w1]. cbn [fst snd] in M1.
-    destruct (w_pending w1) eqn:EP1; [apply (PACK s1 []); [exact M1|apply NIL; exact M1]|]. rewrite <- EP1 in *.
+    destruct (w_pending w1) eqn:EP1; [apply (PACK _ []); [apply RESET; exact M1|apply RNIL; exact M1]|]. rewrite <- EP1 in *.
     destruct (match e_watch_err_at (sc_env sc) with Some n => Nat.eqb n (snd g) | None => false end).
     { apply (PACK _ _ (ABORT _ _ M1)). intros X. discriminate X. }
     set (ws := nth (snd g) (e_waits (sc_env sc)) (mkW [] WTimeout)).
@@ -344,14 +350,15 @@ Section Wait.
       - rewrite X in Hd. destruct Hd. }
     pose proof (MI_deliver c g ids s (w_deliv ws) HW s1 w1 M1) as M2.
     destruct (deliver sc c g ids (w_deliv ws) s1 w1) as [s2 w2]. cbn [fst snd] in M2.
-    destruct (w_pending w2) eqn:EP2; [apply (PACK s2 []); [exact M2|apply NIL; exact M2]|]. rewrite <- EP2 in *.
-    assert (TO : let s' := wait_timeout g s2 w2 in
+    destruct (w_pending w2) eqn:EP2; [apply (PACK _ []); [apply RESET; exact M2|apply RNIL; exact M2]|]. rewrite <- EP2 in *.
+    assert (TO : let s' := wait_reset sc c ids (wait_timeout g s2 w2) in
                  cacheok s' /\ (forall j, ~ In j ids -> rc s' j = rc s j) /\
                  (c = AllNotFound -> forall j, ling s j -> rc3 (rc s j) -> rc3 (rc s' j)) /\
                  (r_abort s' = false -> forall j, In j ids -> rc s' j <> Some RPending)).
     { cbv zeta. unfold wait_timeout.
-      apply (PACK _ (w_pending w2)); [apply MI_timeout; [exact (M_pend _ _ _ _ _ _ M2)|exact M2]|].
-      intros _ j Hj E. rewrite rc_timeout_fold in E. destruct (memn j (w_pending w2)) eqn:MJ.
+      apply (PACK _ (w_pending w2)); [apply RESET; apply MI_timeout; [exact (M_pend _ _ _ _ _ _ M2)|exact M2]|].
+      intros _ j Hj E. unfold rc in E. rewrite wait_reset_tbl in E. fold (rc (fold_left (fun s i => ev (rec_reconcile s i RTimeout) (EWait g i WTimedOut)) (w_pending w2) s2) j) in E.
+      rewrite rc_timeout_fold in E. destruct (memn j (w_pending w2)) eqn:MJ.
       - destruct (rc s2 j); cbn in E; discriminate E.
       - pose proof (M_cov _ _ _ _ _ _ M2 j Hj E) as X. apply memn_In in X. congruence. }
     destruct (w_end ws).
